@@ -101,6 +101,15 @@ ICLen(ic) ==
 \* 0-based; the code panics for i >= ICLen (callers guard)
 ICIndex(ic, i) == ICDenote(ic)[i + 1]
 
+\* the same, written as the code's `index` computes it (no intermediate sequence): the stride answers
+\* arithmetically, the list from the half that holds position i.  ICMC checks IndexAtAgrees.
+ListIndexAt(l, i) == IF i < Len(l.smol) THEN l.smol[i + 1] ELSE l.chonk[i - Len(l.smol) + 1]
+ICIndexAt(ic, i) ==
+  CASE ic.k = "vec"  -> ic.xs[i + 1]
+    [] ic.k = "list" -> ListIndexAt(ic.l, i)
+    [] ic.k = "opt"  -> IF i < StrideLen(ic.st) THEN StrideIndex(ic.st, i)
+                        ELSE ListIndexAt(ic.sp, i - StrideLen(ic.st))
+
 ICClear(ic) == ICInit(ic.k)
 
 \* bytes reported as `used` by heap_size; esz = size of one Vec entry
